@@ -427,13 +427,17 @@ func (e *entryValueMap) tryExpungeLocked() (isExpunged bool) {
 }
 
 func (m *ValueMap) ToJSON() ([]byte, error) {
+	return m.toJSON(map[any]bool{})
+}
+
+func (m *ValueMap) toJSON(seen map[any]bool) ([]byte, error) {
 	var lst [][]byte
 	var err error
 	save := map[*VMValue]bool{}
 	m.Range(func(key string, value *VMValue) bool {
 		var jsonKey []byte
 		var jsonData []byte
-		jsonData, err = value.ToJSONRaw(save)
+		jsonData, err = value.toJSONRaw(save, seen)
 		if err != nil {
 			return false
 		}
